@@ -1,9 +1,136 @@
 package main
 
-// childMain runs one hostile-input operation in a child process (used for C15, where an
-// allocation bomb or a runaway loop must be an observation, not a crash of the check).
+import (
+	"bytes"
+	"fmt"
+	"os"
+	"os/exec"
+	"runtime"
+	"strings"
+	"syscall"
+	"time"
+
+	wt "github.com/hnakamur/whispertool"
+)
+
+// Hostile inputs (C15) are handled in a child process with an address-space limit and a
+// timeout, so that an allocation bomb, a runaway loop or a fatal runtime error is an
+// observation of the case and not a crash of the check.
+
+const childASLimit = 3 << 30 // bytes of address space the child may use
+const childTimeout = 20 * time.Second
+
 func childMain(args []string) {
-	childOps(args)
+	lim := syscall.Rlimit{Cur: childASLimit, Max: childASLimit}
+	_ = syscall.Setrlimit(syscall.RLIMIT_AS, &lim)
+	var ms0, ms1 runtime.MemStats
+	runtime.ReadMemStats(&ms0)
+	out, inputLen := childOp(args)
+	runtime.ReadMemStats(&ms1)
+	alloc := ms1.TotalAlloc - ms0.TotalAlloc
+	verdict := "ok"
+	// proportionality: a generous linear bound in the size of the input (the file / the message)
+	if alloc > 64*uint64(inputLen)+(4<<20) {
+		verdict = fmt.Sprintf("excess(%d_bytes_for_%d_input_bytes)", alloc, inputLen)
+	}
+	fmt.Printf("%s alloc=%s\n", out, verdict)
 }
 
-var childOps = func(args []string) {}
+func childOp(args []string) (out string, inputLen int) {
+	defer func() {
+		if r := recover(); r != nil {
+			out = "panic"
+		}
+	}()
+	switch args[0] {
+	case "dec":
+		src := unhex(args[2])
+		return decodeKind(args[1], src), len(src)
+	case "open", "fetch", "raw", "upd", "many":
+		path := args[1]
+		st, err := os.Stat(path)
+		if err == nil {
+			inputLen = int(st.Size())
+		}
+		db, err := wt.Open(path, wt.WithoutFlock())
+		if err != nil {
+			return "openerr", inputLen
+		}
+		defer db.Close()
+		switch args[0] {
+		case "open":
+			return "ok", inputLen
+		case "fetch":
+			return fetchObs(db, args[2:]), inputLen
+		case "raw":
+			pts, err := db.GetAllRawUnsortedPoints(int(atoi(args[2])))
+			if err != nil {
+				return "err", inputLen
+			}
+			return fmt.Sprintf("ok %d", len(pts)), inputLen
+		case "upd":
+			err := db.UpdatePointForArchive(int(atoi(args[2])), wt.Timestamp(atoi(args[3])), hexv(args[4]), wt.Timestamp(atoi(args[5])))
+			if err != nil {
+				return "err", inputLen
+			}
+			return "ok", inputLen
+		case "many":
+			var pts []wt.Point
+			for i := 5; i+1 < len(args); i += 2 {
+				pts = append(pts, wt.Point{Time: wt.Timestamp(atoi(args[i])), Value: hexv(args[i+1])})
+			}
+			err := db.UpdatePointsForArchive(pts, int(atoi(args[2])), wt.Timestamp(atoi(args[3])))
+			if err != nil {
+				return "err", inputLen
+			}
+			return "ok", inputLen
+		}
+	}
+	return "badop", 0
+}
+
+// runChild runs one operation in a child and returns its observation.
+func runChild(args ...string) string {
+	c := exec.Command(os.Args[0], append([]string{"--child"}, args...)...)
+	var stdout bytes.Buffer
+	c.Stdout = &stdout
+	c.Env = append(os.Environ(), "GOGC=100")
+	if err := c.Start(); err != nil {
+		must(err)
+	}
+	done := make(chan error, 1)
+	go func() { done <- c.Wait() }()
+	select {
+	case err := <-done:
+		line := strings.TrimSpace(stdout.String())
+		if err != nil || line == "" {
+			return "crash"
+		}
+		return line
+	case <-time.After(childTimeout):
+		c.Process.Kill()
+		<-done
+		return "hang"
+	}
+}
+
+func init() {
+	// rawfile NAME HEX : the file's bytes are exactly HEX
+	register("rawfile", func(s *sess, tk []string) {
+		f := s.file(tk[1])
+		must(os.WriteFile(f.path, unhex(tk[2]), 0644))
+		s.obs("rawfile ok")
+	})
+	// hdec KIND HEX : decoder on hostile bytes
+	register("hdec", func(s *sess, tk []string) {
+		s.obs("hdec %s", runChild("dec", tk[1], tk[2]))
+	})
+	// hopen / hfetch / hraw / hupd / hmany NAME args : Open plus one operation on a hostile file
+	for _, op := range []string{"open", "fetch", "raw", "upd", "many"} {
+		op := op
+		register("h"+op, func(s *sess, tk []string) {
+			f := s.file(tk[1])
+			s.obs("h%s %s", op, runChild(append([]string{op, f.path}, tk[2:]...)...))
+		})
+	}
+}
